@@ -732,6 +732,8 @@ def s_rand_graph():
             "edges": rows,
             "dups": n_dup,
             "as_list": draw(st.booleans()),
+        # an edge ndarray may come in any integer dtype wide enough for the vertex indices
+        "edge_dtype": draw(st.sampled_from(["int64", "int64", "int32", "int16", "uint16", "uint8"])),
             "pts": _points(draw, n),
             "masks": _masks(draw, n),
             "pairs": [list(p) for p in draw(st.lists(st.tuples(st.integers(0, n - 1), st.integers(0, n - 1)), min_size=1, max_size=5))],
@@ -752,6 +754,9 @@ def c_rand_graph(case, ctx):
     classify(ctx, ref)
     pts = np.array(case["pts"], dtype=float)
     edges_arg = [list(r) for r in rows] if case["as_list"] else earr(rows)
+    if not case["as_list"] and rows and n <= 255:
+        edges_arg = edges_arg.astype(case.get("edge_dtype", "int64"))
+        ctx.event("edge dtype=%s" % edges_arg.dtype)
     cls = DirectedGraph if directed else UndirectedGraph
     pcls = PointDirectedGraph if directed else PointUndirectedGraph
     pairs = [tuple(p) for p in case["pairs"]]
